@@ -166,12 +166,15 @@ def shard(shard_no, nshards, seed, tier, extra):
         else:
             slots = pool[:rng.randint(1, 5)]
             gt = layoutgen.random_ground_truth(rng, nvars=len(slots), slot_pool=slots)
-            how = rng.choice(["small-small", "small-big", "small-mid"])
+            how = rng.choice(["small-small", "small-big", "small-mid", "small-alias"])
             sigma = {}
+            alias_low = rng.randrange(0, 50)
             for v in gt:
                 while True:
                     t = {"small-small": rng.randrange(0, 200), "small-big": rng.getrandbits(200) | (1 << 130),
-                         "small-mid": rng.randrange(1 << 16, 1 << 64)}[how]
+                         "small-mid": rng.randrange(1 << 16, 1 << 64),
+                         # all images agree in their low 64 bits
+                         "small-alias": alias_low + (rng.randrange(0, 6) << rng.choice([64, 128, 192]))}[how]
                     if t not in sigma.values() and t not in table:
                         break
                 sigma[v["slot"]] = t
